@@ -25,7 +25,7 @@ def templates(g):
     """Systematic part: every jump kind at every nesting position of every loop/branch kind."""
     out = []
     jumps = {"break": sbreak, "continue": scontinue, "ret": None, "none": None}
-    for loop in ("for", "for-injected", "forrange"):
+    for loop in ("for", "for-injected", "forrange", "forrange-injected"):
         for jump in ("break", "continue", "ret", "none"):
             for where in ("body", "if", "else", "elif", "nested-loop"):
                 for at in (0, 1, 2):
@@ -54,6 +54,13 @@ def templates(g):
                         body = rename_var(body, "i", "h.I64")
                         lp = sfor(assign(("var", "h.I64"), "=", ("math", mint(0))), mk_ecmp("<", emath(mvar("h.I64")), emath(mint(3))),
                                   assign(("var", "h.I64"), "+=", ("math", mint(1))), body)
+                        out.append(block([g.mk(), lp, g.mk()], ("expr", emath(mvar("h.I64")))))
+                        continue
+                    elif loop == "forrange-injected":
+                        # the loop KEY is an assignment target like any other: here a field of an injected struct — the body reads
+                        # it through the struct, and the host sees the last index afterwards
+                        body = rename_var(body, "i", "h.I64")
+                        lp = sforrange("h.I64", "sq", body)
                         out.append(block([g.mk(), lp, g.mk()], ("expr", emath(mvar("h.I64")))))
                         continue
                     else:
@@ -147,7 +154,7 @@ def nontrivial(c, o):
     return tree_shape_key(c["body"])
 
 
-RULE = ("systematic: {for over a local, for over an injected struct field (every step evaluation observable in the host store), forRange} x {break, continue, return, none} x 5 nesting positions (loop body, inside if, else, else-if, nested loop) x 3 iteration indexes, with Mark calls making the executed path observable; "
+RULE = ("systematic: {for over a local, for over an injected struct field (every step evaluation observable in the host store), forRange with a local key, forRange whose key is an injected struct field} x {break, continue, return, none} x 5 nesting positions (loop body, inside if, else, else-if, nested loop) x 3 iteration indexes, with Mark calls making the executed path observable; "
         "else-if chains of length 0-3 with every truth vector, with and without else; the 10,000-iteration cap (9,999 / 10,000 / unbounded); the four compound assignments on 8 target kinds (local, struct field, nested field by value and by pointer, map entries, slice elements); "
         "a local assigned two blocks deep read at top level; random statement trees of depth <= 3 (thorough 5) with ~5% wild constructs (non-boolean conditions, break outside loops, undefined locals); "
         "five driver-stated scenarios (forRange over a slice field that the body shrinks / grows through a host method: the indexes present at the start are visited once each; compound assignments whose right-hand side changes the target through a host method: the right-hand side is evaluated before the target is read); compared: outcome class, returned value, cited positions, the full sequence of calls with argument values and dynamic types, and the host objects afterwards; distinct non-trivial = distinct statement-tree shapes containing a loop or branch")
